@@ -1991,7 +1991,17 @@ fn gen(seed: u64, n: usize, path: &str, tier: &str) -> std::io::Result<()> {
         let (head, futs, level_b, check, tag) = if kind < 5 {
             let allow_known = g.r.chance(1, 2);
             let n = g.r.range(1, 3);
-            let vs: Vec<V> = (0..n).map(|_| g.view(3, max_f, Ctx::Top, allow_known)).collect();
+            let mut vs: Vec<V> = (0..n).map(|_| g.view(3, max_f, Ctx::Top, allow_known)).collect();
+            // class suspend-position (F-C05-6 seen by C07's oracle): in-order, a Suspend outside every boundary whose content
+            // ends in text, followed by a text sibling: pending at render time the separator before the sibling is missing
+            let pos_shape = !ooo && g.r.chance(1, 10);
+            if pos_shape {
+                let k = g.fut();
+                let before = g.text();
+                let inner = g.text_items(1);
+                let after = g.text();
+                vs.push(V::El("p".into(), vec![before, V::Suspend(k, inner), after]));
+            }
             let mut futs = vec![];
             futs_of_views(&vs, &mut futs);
             extra = async_nodes(&vs);
@@ -2005,13 +2015,14 @@ fn gen(seed: u64, n: usize, path: &str, tier: &str) -> std::io::Result<()> {
             let mut toks = vec![];
             ser_views(&[V::El("div".into(), vs)], &mut toks);
             // branch markers / a nonce; not with a late read (its `None` renders as an `Either` branch of its own)
-            let flags = match g.r.below(8) {
+            let flags = match if pos_shape { 7 } else { g.r.below(8) } {
                 0 | 1 if !no_b => "b",
                 2 => "n",
                 3 if !no_b => "bn",
                 _ => "",
             };
             let tag = if ooo && flags.contains('n') && top_suspend && !late { "view~suspend-no-nonce" } else { tag };
+            let tag = if pos_shape && !late { "view~suspend-position" } else { tag };
             (format!("view {mode}{flags} D0 {}", toks.join(" ")), futs, true, true, tag)
         } else if kind < 8 {
             let n = g.r.range(1, 4);
